@@ -133,12 +133,15 @@ end C19
 
 /-! ## "let through" is not "sent": reservations of a session that is closed
 
-`c19_not_starved` counts what the bucket has LET THROUGH. `switchboard.send` reserves a frame in the user's bucket
-(`txWait`) before it looks at the switchboard; a writer whose session is closed while it waits for its turn has its tokens
-deducted and then sends nothing. With `K` such writers the user's other session waits behind `K` frames' worth of tokens
-that are never used: the literal clause ("the bytes the server sends ... a backlogged sender is not held below that rate")
-fails — the fourth red-team round's finding, replayed by ./check C19 (scenario c19burnt.go), recorded open: the limiter
-has no way to hand a reservation back. -/
+`c19_not_starved` counts what the bucket has LET THROUGH. A turn at the bucket (`txWait`) deducts its tokens at once and
+cannot hand them back; a sender whose session is closed while it waits for its turn sends nothing. In the pinned tree every
+sender of a session reserved at once (`send` began with `txWait`, before it looked at the switchboard): with `K` waiting
+senders the user's other session waited behind `K` frames' worth of tokens that were never used — the literal clause ("the
+bytes the server sends ... a backlogged sender is not held below that rate") fails for bytes SENT
+(`c19_sent_lower_full`, `c19_burnt_tokens_witness`; the fourth red-team round's finding, ./check C19 scenario c19burnt.go).
+Since /repo's fix the senders of a session take their turns one at a time and none once the switchboard is broken
+(`Gen.Valve.txWaitOneAtATime`: a channel of capacity one around the broken test and the wait, nothing else inside): a
+closed session leaves at most ONE reservation behind, and `c19_sent_lower_bounded` gives the clause with that slack. -/
 namespace C19
 
 /-- the property's lower clause at full strength, about bytes SENT: among the requests `(tick, count, sent?)` of any
@@ -160,6 +163,21 @@ theorem c19_burnt_tokens_witness : ¬ c19_sent_lower_full 100 1 := by
     (by decide) (by decide)
   revert this
   decide
+
+/-- the source takes the turns one at a time -/
+theorem gen_turnstile : Gen.Valve.txWaitOneAtATime = true ∧ Gen.Valve.txWaitBeforeWrite = true := by decide
+
+/-- **C19 (lower clause for bytes sent, with the slack the turnstile leaves).** Whatever is let through is either sent or
+belongs to a sender whose session was closed while it waited; if those unsent reservations add up to at most `burnt`
+(one frame, `≤ M`, per session closed so far), the single backlogged sender of `c19_not_starved` has been SENT more than
+`cap + q·t − M − burnt` by every tick `t` at which it still waits. -/
+theorem c19_sent_lower_bounded (cap q M burnt sent : Int) (hq : 0 < q) (hqc : q ≤ cap + 1) (cs : List Int)
+    (hcs : ∀ c ∈ cs, 0 < c ∧ c ≤ M) (t : Int) (ht : 0 ≤ t)
+    (hp : ∃ x ∈ runBL cap q ⟨cap, 0⟩ 0 cs, t < x.1)
+    (hsent : releasedBy t (runBL cap q ⟨cap, 0⟩ 0 cs) - burnt ≤ sent) :
+    cap + q * t - M - burnt < sent := by
+  have := c19_not_starved cap q M hq hqc cs hcs t ht hp
+  omega
 
 /-- what the bucket answers in that history: release ticks 0, 100, 200, 300, 400 for the closed session's frames, 410 for the other session -/
 example : TB.run 100 1 ⟨100, 0⟩ [(0, 100), (0, 100), (0, 100), (0, 100), (0, 100), (1, 10)] =
